@@ -228,7 +228,16 @@ pub fn run_c19(ctx: &Ctx) -> i32 {
     let mut runs = 0u64;
     let mut setter_calls = 0u64;
     for case in &cases {
-        for is_dir in [false, true] {
+        // kinds: file, directory, and (on the plain physical backend and an altroot over it) a
+        // symbolic link to a file that was placed in the directory behind the backend's back:
+        // setters and metadata both follow it, so the values must round-trip as for a file
+        let link_ok = matches!(&case.cfg, Cfg::Phys) || matches!(&case.cfg, Cfg::Alt(x, _) if **x == Cfg::Phys);
+        for kind_ix in 0..3usize {
+            let is_dir = kind_ix == 1;
+            let is_link = kind_ix == 2;
+            if is_link && !link_ok {
+                continue;
+            }
             for (ti, _) in ts.iter().enumerate() {
                 for seq in &seqs {
                     for follow in [
@@ -240,7 +249,7 @@ pub fn run_c19(ctx: &Ctx) -> i32 {
                         Follow::AppendHandleOpenAcrossSetters,
                         Follow::ReadBeforeSetters,
                     ] {
-                        if is_dir && !matches!(follow, Follow::Nothing | Follow::ReadBeforeSetters) {
+                        if (is_dir || is_link) && !matches!(follow, Follow::Nothing | Follow::ReadBeforeSetters) {
                             continue;
                         }
                         runs += 1;
@@ -254,9 +263,17 @@ pub fn run_c19(ctx: &Ctx) -> i32 {
                         for extra in case.also {
                             init.push((*extra, vec![("/t".to_string(), node.clone())]));
                         }
+                        if is_link {
+                            init = vec![(case.base, vec![("/tt".to_string(), node.clone())])];
+                        }
                         let b = build(&case.cfg, Order::Asc, &init);
+                        if is_link {
+                            let prefix = b.bases[0].prefix.clone();
+                            let dir = b.phys_outer_dirs()[0].join("root").join(prefix.trim_start_matches('/'));
+                            std::os::unix::fs::symlink(dir.join("tt"), dir.join("t")).expect("HARNESS: symlink");
+                        }
                         let p = b.root.join("t").unwrap();
-                        let kind = if is_dir { "dir" } else { "file" };
+                        let kind = if is_dir { "dir" } else if is_link { "symlink-to-file" } else { "file" };
                         let mk = |tail: String, what: String| Violation {
                             property: "C19".into(),
                             signature: format!("{}|{}|{}", case.label, kind, tail),
